@@ -4191,7 +4191,11 @@ list_sysfsnode(struct hwloc_topology *topology,
   }
   closedir(dir);
 
-  assert(nbnodes >= 1); /* linux cannot have a "node/" subdirectory without at least one "node%d" */
+  if (!nbnodes) {
+    /* linux cannot have a "node/" subdirectory without at least one "node%d", ignore such a directory */
+    hwloc_bitmap_free(nodeset);
+    return NULL;
+  }
 
   /* we don't know if sysfs returns nodes in order, we can't merge above and below loops */
 
